@@ -790,4 +790,79 @@ theorem mem_dedupKeyRows {K : TagSet} {l : List Row} {x : Row} (h : x ∈ dedupK
 theorem masked_dedup_key {X : RS} (hX : Masked X) (K : TagSet) : Masked (dedup_key K X) :=
   fun r hr => hX r (mem_dedupKeyRows hr)
 
+/-! ## keyed deduplication (dict semantics): rebuilding the dict from its own values gives the dict back -/
+
+/-- invariant of the dict built by `dedupKeyRows`: keys are distinct and each key is the masked value -/
+def DictOK (K : TagSet) (d : List (Row × Row)) : Prop :=
+  (d.map Prod.fst).Nodup ∧ ∀ kv ∈ d, kv.1 = mask K kv.2
+
+theorem dictSet_keys_of_mem (d : List (Row × Row)) (k v : Row) (h : k ∈ d.map Prod.fst) :
+    (dictSet d k v).map Prod.fst = d.map Prod.fst := by
+  simp only [dictSet, h, if_true, List.map_map]
+  apply List.map_congr_left
+  intro kv _
+  by_cases e : kv.1 = k <;> simp [e]
+
+theorem dictOK_dictSet (K : TagSet) (d : List (Row × Row)) (r : Row) (h : DictOK K d) :
+    DictOK K (dictSet d (mask K r) r) := by
+  obtain ⟨h1, h2⟩ := h
+  by_cases hk : mask K r ∈ d.map Prod.fst
+  · refine ⟨?_, ?_⟩
+    · rw [dictSet_keys_of_mem d _ r hk]; exact h1
+    · intro kv hkv
+      simp only [dictSet, hk, if_true, List.mem_map] at hkv
+      obtain ⟨kv', hkv', rfl⟩ := hkv
+      by_cases e : kv'.1 = mask K r
+      · simp [e]
+      · simp [e]; exact h2 kv' hkv'
+  · refine ⟨?_, ?_⟩
+    · simp only [dictSet, hk, if_false, List.map_append, List.map_cons, List.map_nil]
+      rw [List.nodup_append]
+      refine ⟨h1, by simp, ?_⟩
+      intro a ha b hb
+      simp only [List.mem_singleton] at hb
+      subst hb
+      intro e; subst e; exact hk ha
+    · intro kv hkv
+      simp only [dictSet, hk, if_false, List.mem_append, List.mem_singleton] at hkv
+      rcases hkv with hkv | rfl
+      · exact h2 kv hkv
+      · rfl
+
+theorem dictOK_foldl (K : TagSet) (l : List Row) (d : List (Row × Row)) (h : DictOK K d) :
+    DictOK K (l.foldl (fun d r => dictSet d (mask K r) r) d) := by
+  induction l generalizing d with
+  | nil => exact h
+  | cons r l ih => exact ih _ (dictOK_dictSet K d r h)
+
+theorem foldl_rebuild (K : TagSet) (d2 d1 : List (Row × Row)) (h : DictOK K (d1 ++ d2)) :
+    (d2.map Prod.snd).foldl (fun d r => dictSet d (mask K r) r) d1 = d1 ++ d2 := by
+  induction d2 generalizing d1 with
+  | nil => simp
+  | cons kv d2 ih =>
+    obtain ⟨h1, h2⟩ := h
+    have hk : kv.1 = mask K kv.2 := h2 kv (by simp)
+    have hnot : mask K kv.2 ∉ d1.map Prod.fst := by
+      rw [← hk]
+      intro hm
+      rw [List.map_append, List.nodup_append] at h1
+      exact h1.2.2 _ hm _ (by simp) rfl
+    simp only [List.map_cons, List.foldl_cons]
+    have step : dictSet d1 (mask K kv.2) kv.2 = d1 ++ [kv] := by
+      simp only [dictSet, hnot, if_false]
+      congr 2
+      exact Prod.ext hk.symm rfl
+    rw [step]
+    have e : (d1 ++ [kv]) ++ d2 = d1 ++ kv :: d2 := by simp
+    have := ih (d1 ++ [kv]) (by rw [e]; exact ⟨h1, h2⟩)
+    rw [this, e]
+
+theorem dedupKeyRows_idem (K : TagSet) (l : List Row) :
+    dedupKeyRows K (dedupKeyRows K l) = dedupKeyRows K l := by
+  unfold dedupKeyRows
+  have hok := dictOK_foldl K l [] (by simp [DictOK])
+  have := foldl_rebuild K (l.foldl (fun d r => dictSet d (mask K r) r) []) [] (by simpa using hok)
+  simp only [List.nil_append] at this
+  rw [this]
+
 end RelAlg
